@@ -286,9 +286,14 @@ def cases(tier):
     for desc in design.family_hier(tier, variants=("plain",)):
         # queries do not depend on the wiring beyond connectivity-free structure: all wirings for the small
         # skeletons, the first wiring of each definition for the others
-        if tier == "thorough" or desc[0] in ("K1-chain2", "K8-bus") or sum(desc[1]) <= 1:
+        small = desc[0] in ("K1-chain2", "K8-bus") or sum(desc[1]) <= 1
+        if tier == "thorough" or small:
             for order in core.ORDER_VARIANTS:
                 out.append((desc, order, "query"))
+        elif sum(desc[1]) % 3 == 0 or desc[0] in ("K10-wire-only-shared", "K4-wire-only"):
+            # the queries depend on the structure, not on the wiring: a third of the wirings of the bigger
+            # skeletons (every wiring in the thorough tier)
+            out.append((desc, "asc", "query"))
     for sk in design.SKELETONS:
         if design.SKELETONS[sk][2] == "thorough" and tier != "thorough":
             continue
